@@ -742,7 +742,11 @@ func c13r7(p *Program, r *Report) {
 		if st.retStmt == nil || len(st.retStmt.Results) != 1 {
 			continue
 		}
-		got := exprStr(ast.Unparen(st.retStmt.Results[0]))
+		res := ast.Unparen(st.retStmt.Results[0])
+		if c, isCall := res.(*ast.CallExpr); isCall && tr.inline[calleeName(fi.Pkg.TypesInfo, c)] && len(st.retExprs) == 1 {
+			res = ast.Unparen(st.retExprs[0]) // `return helper(...)`: the decision is the helper's
+		}
+		got := exprStr(res)
 		// what the path decided
 		kinds := map[string]bool{}
 		isDefault := false
